@@ -42,6 +42,16 @@ type C29Scn struct {
 	Sched   SchedCfg      `json:"sched"`
 }
 
+// hasErrFaults: the fault plan holds backend errors (not only delays): a look-up may then fail for that reason.
+func (sc *C29Scn) hasErrFaults() bool {
+	for _, f := range sc.Stalls {
+		if f.Kind != "stall" && f.Kind != "stall_ret" {
+			return true
+		}
+	}
+	return false
+}
+
 var c29Dirs = []string{"/", "/d"}
 
 func c29Path(dir, client, name int) string {
@@ -547,7 +557,7 @@ func (c *c29Client) run(ops []C29Op) {
 						}
 					}
 				}
-			} else if !c.hist.wasAbsent(pp) {
+			} else if !c.hist.wasAbsent(pp) && !c.sc.hasErrFaults() {
 				c.o.Vio("C29.absence-never-true", "op=peek", "client %d LOOKUP %s failed with status %d although the name existed during the whole run", c.idx, pp, r.Status)
 			}
 		case "create", "mkdir", "symlink":
@@ -780,7 +790,9 @@ func runC29(t *testing.T, scAny any, trace bool) *Outcome {
 			}
 		}
 		for _, f := range sc.Stalls {
-			w.FS.AddFault(f)
+			if f.Kind == "stall" || f.Kind == "stall_ret" {
+				w.FS.AddFault(f)
+			}
 		}
 		hist := &c29Hist{}
 		hist.record(w.FS, tracked)
@@ -819,6 +831,11 @@ func runC29(t *testing.T, scAny any, trace bool) *Outcome {
 		if !sc.Cached {
 			// minimal TTL: let the set-up entries expire before the concurrent phase
 			simrt.Sleep(time.Millisecond)
+		}
+		for _, f := range sc.Stalls {
+			if f.Kind != "stall" && f.Kind != "stall_ret" {
+				w.FS.AddFault(f) // backend errors start with the concurrent phase (the set-up above is not what is judged)
+			}
 		}
 		done := make(chan int, len(clients))
 		for ci, c := range clients {
@@ -1113,6 +1130,15 @@ func genC29(r *simrt.Rand, tier string) any {
 			}
 		}
 	}
+	if sc.Cached && r.Pct(20) {
+		// backend errors in the middle of concurrent requests (cached mode only: the linearizability specification
+		// of mode A has no notion of a request that fails for no reason of its own). Every request is still
+		// answered, nothing deadlocks, replies that succeed still describe real states, and afterwards handle
+		// table and caches agree with the backend.
+		for k, n := 0, 1+r.Int(2); k < n; k++ {
+			sc.Stalls = append(sc.Stalls, simfs.Fault{Op: []string{"Stat", "Lstat", "OpenFile", "File.Sync", "Chtimes", "Remove", "Rename", "Create", "File.Close", "Chmod"}[r.Int(10)], Nth: 1 + r.Int(8), Kind: "eio"})
+		}
+	}
 	if r.Pct(40) {
 		for k := 0; k < 1+r.Int(2); k++ {
 			sc.Stalls = append(sc.Stalls, simfs.Fault{Op: []string{"Lstat", "Stat", "ReadDir", "OpenFile", "Rename", "Remove", "", "File.Stat", "File.ReadAt", "Truncate", "File.Readdir", "File.Readdir"}[r.Int(12)], Nth: 1 + r.Int(10), Kind: []string{"stall", "stall_ret"}[r.Int(2)],
@@ -1157,7 +1183,7 @@ func shrinkC29(scAny any) []any {
 
 func init() {
 	Register(&Prop{ID: "C29", Level: "exploration", Race: true,
-		Rule: "one case = 2-4 clients on their own connections issuing 2-5 requests each (<= 14 in total) from CREATE/MKDIR/SYMLINK/REMOVE/RMDIR/RENAME/WRITE/READ/LOOKUP/GETATTR/SETATTR/READDIR on their own names (3 per client) in two shared directories through shared directory handles, plus SETATTR(mode)/GETATTR of the shared directories themselves, payloads unique per write, 0-2 backend calls delayed by 1 us-20 ms (before the call does its work, or - a slow answer - between its work and its return, so that what the caller holds describes the past), 1-4 workers, every lock/channel/select/network/backend interleaving decided by the seeded scheduler (random, PCT, sticky), also built with -race; mode A (60%): caches at minimal TTL/size: the invoke/return history (stamped with scheduler event numbers) is checked with porcupine against a path-based specification of the twelve procedures (status success/failure, kind, size, mode, data, eof, complete listing); mode B (40%): caches on with 1 h TTLs plus cross-client LOOKUP/GETATTR of other clients' names: every attribute block, READ payload and listing in a reply must be one the backend object really had at some instant (history recorded atomically at every mutating backend call), and a failed lookup needs an instant of absence; both modes: every request answered, no panic, no deadlock (client blocked at the horizon), and afterwards every unexpired attribute-cache entry, directory-cache listing and the handle table (bijection of ids and paths) agree with the backend; non-trivial = at least 4 recorded operations from at least 2 clients; distinct by event digest; linearizability time-outs (10 s) are counted, never reported",
+		Rule: "one case = 2-4 clients on their own connections issuing 2-5 requests each (<= 14 in total) from CREATE/MKDIR/SYMLINK/REMOVE/RMDIR/RENAME/WRITE/READ/LOOKUP/GETATTR/SETATTR/READDIR on their own names (3 per client) in two shared directories through shared directory handles, plus SETATTR(mode)/GETATTR of the shared directories themselves, payloads unique per write, 0-2 backend calls delayed by 1 us-20 ms (before the call does its work, or - a slow answer - between its work and its return, so that what the caller holds describes the past), 1-4 workers, every lock/channel/select/network/backend interleaving decided by the seeded scheduler (random, PCT, sticky), also built with -race; mode A (60%): caches at minimal TTL/size: the invoke/return history (stamped with scheduler event numbers) is checked with porcupine against a path-based specification of the twelve procedures (status success/failure, kind, size, mode, data, eof, complete listing); mode B (40%; in a fifth of these 1-2 backend calls fail with EIO): caches on with 1 h TTLs plus cross-client LOOKUP/GETATTR of other clients' names: every attribute block, READ payload and listing in a reply must be one the backend object really had at some instant (history recorded atomically at every mutating backend call), and a failed lookup needs an instant of absence; both modes: every request answered, no panic, no deadlock (client blocked at the horizon), and afterwards every unexpired attribute-cache entry, directory-cache listing and the handle table (bijection of ids and paths) agree with the backend; non-trivial = at least 4 recorded operations from at least 2 clients; distinct by event digest; linearizability time-outs (10 s) are counted, never reported",
 		Gen:  genC29, New: func() any { return &C29Scn{} }, Run: runC29, Shrink: shrinkC29,
 		Real: seqReal, Stubbed: seqStubbed})
 }
